@@ -115,6 +115,38 @@ class FaultyStream:
         return getattr(self._real, name)
 
 
+_FINALLY = {}  # filename -> set of line numbers inside `finally` bodies
+
+
+def _finally_lines(filename):
+    got = _FINALLY.get(filename)
+    if got is None:
+        import ast
+
+        got = set()
+        try:
+            with open(filename, encoding="utf-8") as f:
+                tree = ast.parse(f.read())
+            for node in ast.walk(tree):
+                if isinstance(node, ast.Try) and node.finalbody:
+                    got.update(range(node.finalbody[0].lineno, node.finalbody[-1].end_lineno + 1))
+        except (OSError, SyntaxError):
+            pass
+        _FINALLY[filename] = got
+    return got
+
+
+def _in_cleanup(frame, suffixes):
+    """Is this line, or a line of a calling frame in the traced files, inside a `finally` body (or an `__exit__`)?"""
+    while frame is not None:
+        code = frame.f_code
+        if code.co_filename.endswith(suffixes):
+            if code.co_name in ("__exit__", "__del__") or frame.f_lineno in _finally_lines(code.co_filename):
+                return True
+        frame = frame.f_back
+    return False
+
+
 class LineFault:
     """Raises `exc` at the k-th executed line (1-based) of the code whose file name ends with one of `suffixes`
     (an asynchronous exception such as Ctrl-C landing between two bytecodes), or just counts lines when k is None.
@@ -123,16 +155,34 @@ class LineFault:
         with LineFault(("image/block.py",), k, KeyboardInterrupt): f()
     """
 
-    def __init__(self, suffixes, k=None, exc=KeyboardInterrupt):
-        self.suffixes, self.k, self.exc = tuple(suffixes), k, exc
+    def __init__(self, suffixes, k=None, exc=KeyboardInterrupt, distinct=False):
+        # distinct=True: k counts source lines reached for the first time (every statement is equally likely to be the
+        # interruption point, however long the loops around it run) instead of line events
+        self.suffixes, self.k, self.exc, self.distinct = tuple(suffixes), k, exc, distinct
         self.lines = 0
+        self.distinct_lines = 0
+        self._seen = set()
         self.fired = False
+        self._due = False
+        self.where = None
 
     def _local(self, frame, event, arg):
         if event == "line":
             self.lines += 1
-            if self.k is not None and self.lines == self.k and not self.fired:
+            key = (frame.f_code, frame.f_lineno)
+            new = key not in self._seen
+            if new:
+                self._seen.add(key)
+                self.distinct_lines += 1
+            if self.k is not None and not self.fired and (
+                (new and self.distinct_lines == self.k) if self.distinct else self.lines == self.k
+            ):
+                self._due = True
+            if self._due and not self.fired and not _in_cleanup(frame, self.suffixes):
+                # (an interruption that lands inside clean-up code -- a `finally` body or what it calls -- cannot be
+                # guarded against by any program; the point moves to the next line outside clean-up)
                 self.fired = True
+                self.where = f"{frame.f_code.co_filename.rsplit('/', 1)[-1]}:{frame.f_lineno}"
                 raise self.exc()
         return self._local
 
@@ -153,3 +203,23 @@ class LineFault:
 
         sys.settrace(self._old)
         return False
+
+
+def interrupt_at(files, frac, fn, exc=KeyboardInterrupt, max_lines=40000, dry_fn=None):
+    """Runs fn() once to count, then again with `exc` raised at a point chosen by frac in [0,1): the lower half of the
+    range selects among source lines reached for the first time, the upper half among all line events.  Returns the
+    LineFault used (`.fired`, `.where`) or None when the run is too short/long; `exc` raised by the run is swallowed."""
+    with LineFault(files) as dry:
+        (dry_fn or fn)()  # dry_fn: the same computation on a twin object, when fn's first run itself must be the interrupted one
+    if not 3 < dry.lines < max_lines:
+        return None
+    if frac < 0.5:
+        lf = LineFault(files, 1 + int(frac * 2 * dry.distinct_lines) % max(1, dry.distinct_lines), exc, distinct=True)
+    else:
+        lf = LineFault(files, 2 + int((frac - 0.5) * 2 * (dry.lines - 3)), exc)
+    try:
+        with lf:
+            fn()
+    except exc:
+        pass
+    return lf
